@@ -1,3 +1,314 @@
-pub fn main(_cases: &str, _out: &str, _workdir: &str, _args: &[String]) {
-    unimplemented!()
+//! engine cases: deploy the generated workflow, start it, replay the client operations by task
+//! creation index, print the canonical trace (same line format as ocaml/driver_engine.ml)
+use acts::{EngineBuilder, Vars, Workflow};
+use serde_json::Value;
+use std::collections::{HashMap, HashSet};
+use std::io::{BufRead, Write};
+
+use crate::util::quiesce;
+
+pub fn canon(v: &Value) -> String {
+    let mut l: Vec<(String, String)> = vec![];
+    if let Value::Object(m) = v {
+        for (k, x) in m {
+            let known = k == "data" || k == "dataset" || k == "__p" || k == "nope"
+                || (k.len() >= 2 && k.starts_with('k') && k[1..].chars().all(|c| c.is_ascii_digit()));
+            if known {
+                l.push((
+                    k.clone(),
+                    match x {
+                        Value::Null => "null".to_string(),
+                        Value::Number(n) => n.to_string(),
+                        Value::Bool(b) => b.to_string(),
+                        o => format!("?{}", o),
+                    },
+                ));
+            }
+        }
+    }
+    l.sort();
+    format!("{{{}}}", l.iter().map(|(k, v)| format!("{k}:{v}")).collect::<Vec<_>>().join(","))
+}
+
+pub fn canon_str(js: &str) -> String {
+    canon(&serde_json::from_str(js).unwrap_or(Value::Null))
+}
+
+pub struct Canon {
+    pub idx: HashMap<String, usize>,
+    pub tids: Vec<String>,
+    pub statics: HashSet<String>,
+    pub extra: bool,
+}
+
+impl Canon {
+    pub fn new(wf: &Value, extra: bool) -> Self {
+        let mut statics = HashSet::new();
+        fn collect(v: &Value, out: &mut HashSet<String>) {
+            match v {
+                Value::Object(m) => {
+                    if let Some(Value::String(id)) = m.get("id") {
+                        out.insert(id.clone());
+                    }
+                    for (_, x) in m {
+                        collect(x, out);
+                    }
+                }
+                Value::Array(a) => {
+                    for x in a {
+                        collect(x, out);
+                    }
+                }
+                _ => {}
+            }
+        }
+        collect(wf, &mut statics);
+        Canon { idx: HashMap::new(), tids: vec![], statics, extra }
+    }
+
+    fn ix(&self, tid: &str) -> String {
+        self.idx.get(tid).map(|x| x.to_string()).unwrap_or("?".into())
+    }
+
+    /// drain the hook log and print the lines of process `pid`
+    pub fn flush(&mut self, out: &mut impl Write, cid: &str, pid: &str, mid: &str) {
+        for l in acts::verif::take_log() {
+            let p: Vec<&str> = l.split(' ').collect();
+            if p.len() < 2 || p[1] != pid {
+                continue;
+            }
+            match p[0] {
+                "N" => {
+                    let i = self.tids.len();
+                    self.idx.insert(p[2].to_string(), i);
+                    self.tids.push(p[2].to_string());
+                    let nid = if p[3] == mid {
+                        "n0"
+                    } else if self.statics.contains(p[3]) {
+                        p[3]
+                    } else {
+                        "dyn"
+                    };
+                    let prev = if p[5] == "-" { "-".to_string() } else { self.ix(p[5]) };
+                    writeln!(out, "case {cid}: N {i} {nid} {prev} {} {} {} {}", p[4], p[6], p[7], p[8]).unwrap();
+                }
+                "T" => writeln!(out, "case {cid}: T {} {} {} {}", self.ix(p[2]), p[3], p[4], p[5]).unwrap(),
+                "X" => writeln!(out, "case {cid}: X {}", self.ix(p[2])).unwrap(),
+                "M" => {
+                    let js = p[3].replace('\u{1}', " ");
+                    let m: Value = serde_json::from_str(&js).unwrap_or(Value::Null);
+                    writeln!(
+                        out,
+                        "case {cid}: M {} {} {} {}",
+                        self.ix(p[2]),
+                        m["state"].as_str().unwrap_or("?"),
+                        canon(&m["inputs"]),
+                        canon(&m["outputs"])
+                    )
+                    .unwrap();
+                    if self.extra {
+                        // the fields C08 speaks about, as the client sees them
+                        writeln!(
+                            out,
+                            "case {cid}: MF {} id={} nid={} type={} key={} uses={} pid_ok={} retry={}",
+                            self.ix(p[2]),
+                            m["id"].as_str().unwrap_or("?"),
+                            if m["nid"].as_str() == Some(mid) { "n0" } else { m["nid"].as_str().unwrap_or("?") },
+                            m["type"].as_str().unwrap_or("?"),
+                            m["key"].as_str().unwrap_or("?"),
+                            m["uses"].as_str().unwrap_or("?"),
+                            m["pid"].as_str() == Some(pid),
+                            m["retry_times"]
+                        )
+                        .unwrap();
+                    }
+                }
+                "P" => writeln!(out, "case {cid}: P {} {}", p[2], canon_str(&p[3].replace('\u{1}', " "))).unwrap(),
+                _ => {}
+            }
+        }
+    }
+}
+
+pub fn main(cases: &str, out: &str, workdir: &str, args: &[String]) {
+    let threads: usize = args.iter().find_map(|a| a.strip_prefix("threads=").map(|x| x.parse().unwrap())).unwrap_or(1);
+    let rt = if threads <= 1 {
+        tokio::runtime::Builder::new_current_thread().enable_all().build().unwrap()
+    } else {
+        tokio::runtime::Builder::new_multi_thread().worker_threads(threads).enable_all().build().unwrap()
+    };
+    rt.block_on(run(cases, out, workdir, args));
+}
+
+async fn run(cases: &str, out: &str, workdir: &str, args: &[String]) {
+    let extra = args.iter().any(|a| a == "extra");
+    let rows = args.iter().any(|a| a == "rows");
+    let evict = args.iter().any(|a| a == "evict");
+    let gate = args.iter().any(|a| a == "gate");
+    let cfgp = crate::util::write_config(workdir, "engine.toml", "tick_interval_secs = 100000\nkeep_processes = true\nmax_message_retry_times = 3\n");
+    acts::verif::manual_tick(true);
+    acts::verif::log_enable(true);
+    acts::verif::clock_enable(1000);
+    let engine = EngineBuilder::new().set_config_source(&cfgp).build().await.unwrap().start();
+    let ex = engine.executor();
+    let f = std::fs::File::open(cases).unwrap();
+    let mut w = std::io::BufWriter::new(std::fs::File::create(out).unwrap());
+    for line in std::io::BufReader::new(f).lines() {
+        let line = line.unwrap();
+        if line.trim().is_empty() {
+            continue;
+        }
+        let v: Value = serde_json::from_str(&line).unwrap();
+        let cid = v["id"].as_str().unwrap().to_string();
+        let mut wf = match Workflow::from_json(&v["wf"].to_string()) {
+            Ok(w) => w,
+            Err(e) => {
+                writeln!(w, "case {cid}: CASE-ERROR {e}").unwrap();
+                continue;
+            }
+        };
+        wf.id = format!("m-{cid}");
+        let mid = wf.id.clone();
+        if let Err(_e) = ex.model().deploy(&wf) {
+            writeln!(w, "case {cid}: BUILD-FAILED").unwrap();
+            continue;
+        }
+        let pid = format!("p-{cid}");
+        let mut vars = Vars::new();
+        vars.set("pid", pid.clone());
+        quiesce().await;
+        acts::verif::take_log();
+        acts::verif::clock_enable(1000);
+        if let Err(e) = ex.proc().start(&wf.id, &vars) {
+            writeln!(w, "case {cid}: START-FAILED {e}").unwrap();
+            continue;
+        }
+        quiesce().await;
+        let mut canon = Canon::new(&v["wf"], extra);
+        canon.flush(&mut w, &cid, &pid, &mid);
+        writeln!(w, "case {cid}: Q").unwrap();
+        if rows {
+            rows_check(&engine, &canon, &cid, &pid, 0, &mut w);
+        }
+        let mut point = 0;
+        for op in v["ops"].as_array().unwrap() {
+            point += 1;
+            if evict {
+                engine.verif_evict(&pid);
+            }
+            if let Some(adv) = op.get("tick") {
+                acts::verif::clock_advance(adv.as_i64().unwrap());
+                engine.verif_tick();
+                quiesce().await;
+                canon.flush(&mut w, &cid, &pid, &mid);
+                writeln!(w, "case {cid}: Q").unwrap();
+            } else {
+                let t = op["t"].as_u64().unwrap() as usize;
+                let tid = canon.tids.get(t).cloned().unwrap_or("zzzz".to_string());
+                let opts: Vars = op["o"].clone().into();
+                let a = op["a"].as_str().unwrap();
+                let ev: acts::Action = serde_json::from_value(serde_json::json!({"pid": pid, "tid": tid, "event": a, "options": {}})).unwrap();
+                if gate {
+                    acts::verif::gate_close();
+                }
+                let r = std::panic::catch_unwind(std::panic::AssertUnwindSafe(|| ex.act().do_action(&pid, &tid, ev.event.clone(), &opts)));
+                // the action's own synchronous effects come first in the log, then its result, then the drained queue
+                canon.flush(&mut w, &cid, &pid, &mid);
+                match r {
+                    Ok(r) => writeln!(w, "case {cid}: A {}", if r.is_ok() { "ok" } else { "err" }).unwrap(),
+                    Err(_) => writeln!(w, "case {cid}: A panic").unwrap(),
+                }
+                if gate {
+                    acts::verif::gate_open();
+                }
+                quiesce().await;
+                canon.flush(&mut w, &cid, &pid, &mid);
+                writeln!(w, "case {cid}: Q").unwrap();
+            }
+            if rows {
+                rows_check(&engine, &canon, &cid, &pid, point, &mut w);
+            }
+        }
+        if let Some(live) = engine.verif_live(&pid) {
+            for t in live.3.iter() {
+                if let Some(i) = canon.idx.get(&t.0) {
+                    let hook = serde_json::from_str::<Value>(&t.5).ok().and_then(|d| d.get("$is_event_processed").cloned()) == Some(Value::Bool(true));
+                    writeln!(w, "case {cid}: D {i} {} {}{}", t.3, canon_str(&t.5), if hook { " hook" } else { "" }).unwrap();
+                }
+            }
+        } else {
+            writeln!(w, "case {cid}: GONE").unwrap();
+        }
+        // the process must not take part in later cases (ticks, restore): drop it from cache and store
+        engine.verif_evict(&pid);
+        {
+            use acts::query::{Cond, Expr, Query};
+            let store = engine.verif_store();
+            let q = Query::new().push(Cond::and().push(Expr::eq("pid", pid.to_string())));
+            if let Ok(rows) = store.tasks().query(&q) {
+                for r in rows.rows {
+                    let _ = store.tasks().delete(&r.id);
+                }
+            }
+            let _ = store.procs().delete(&pid);
+        }
+    }
+    w.flush().unwrap();
+    engine.close();
+}
+
+/// C11: live process vs the rows in the store, at a quiescent point
+fn rows_check(engine: &acts::Engine, canon: &Canon, cid: &str, pid: &str, point: usize, out: &mut impl Write) {
+    use acts::query::{Cond, Expr, Query};
+    let store = engine.verif_store();
+    let live = match engine.verif_live(pid) {
+        Some(l) => l,
+        None => return,
+    };
+    let prow = store.procs().find(pid).ok();
+    let q = Query::new().push(Cond::and().push(Expr::eq("pid", pid.to_string())));
+    let rows = store.tasks().query(&q).map(|p| p.rows).unwrap_or_default();
+    let rmap: HashMap<String, &acts::data::Task> = rows.iter().map(|r| (r.tid.clone(), r)).collect();
+    match &prow {
+        None => writeln!(out, "case {cid}: RP {point} missing-proc-row").unwrap(),
+        Some(p) => {
+            if p.state != live.0 {
+                writeln!(out, "case {cid}: RP {point} state live={} row={}", live.0, p.state).unwrap();
+            }
+            if canon_str(&p.env) != canon_str(&live.1) {
+                writeln!(out, "case {cid}: RP {point} env live={} row={}", canon_str(&live.1), canon_str(&p.env)).unwrap();
+            }
+            if p.err != live.2 {
+                writeln!(out, "case {cid}: RP {point} err live={:?} row={:?}", live.2, p.err).unwrap();
+            }
+        }
+    }
+    for t in live.3.iter() {
+        let i = canon.idx.get(&t.0).map(|x| x.to_string()).unwrap_or("?".into());
+        match rmap.get(&t.0) {
+            None => writeln!(out, "case {cid}: RT {point} {i} missing-row live-state={}", t.3).unwrap(),
+            Some(r) => {
+                if r.state != t.3 {
+                    writeln!(out, "case {cid}: RT {point} {i} state live={} row={}", t.3, r.state).unwrap();
+                }
+                if r.prev != t.4 {
+                    writeln!(out, "case {cid}: RT {point} {i} prev").unwrap();
+                }
+                if canon_str(&r.data) != canon_str(&t.5) {
+                    writeln!(out, "case {cid}: RT {point} {i} data live={} row={}", canon_str(&t.5), canon_str(&r.data)).unwrap();
+                }
+                if r.err != t.6 {
+                    writeln!(out, "case {cid}: RT {point} {i} err live={:?} row={:?}", t.6, r.err).unwrap();
+                }
+                if r.start_time != t.7 || r.end_time != t.8 {
+                    writeln!(out, "case {cid}: RT {point} {i} times").unwrap();
+                }
+            }
+        }
+    }
+    for r in rows.iter() {
+        if !live.3.iter().any(|t| t.0 == r.tid) {
+            writeln!(out, "case {cid}: RT {point} ? row-without-task").unwrap();
+        }
+    }
 }
